@@ -102,3 +102,14 @@ prop("C06", [_lazy("order", "rule_ord1"), _lazy("order", "rule_ndet1")],
      "listed sites (NDET-1).",
      "decided up to the stated assumptions: sorted() keys are total on their elements; dict and OrderedSet keep "
      "insertion order; third-party calls are deterministic")
+
+prop("C13", [_lazy("dictkeys", "rule_rx1"), _lazy("dictkeys", "rule_dk")],
+     "Static decision of: the text the CLI compiles from each --dict-keys-regex value is, in every variant the code "
+     "can produce, ^ + group containing the unmodified user pattern + $ (regex parse tree with the user part as a "
+     "hole), without flags (RX-1); the per-field flag is passed only by _convert as `key not in dict_keys_fields` "
+     "for the key being typed and never forwarded by the recursive calls (DK-1); each configured regex is compiled "
+     "on its own, and the flag is cleared only under all(<pattern>.match over every key) inside the loop over "
+     "patterns; flag set -> model via _convert, cleared -> DDict; empty object -> DDict (DK-3); top-level samples "
+     "go straight to _convert (DK-2).",
+     "that the value type T of the mapping admits every value (C01 territory); `$` also matching before a trailing "
+     "newline (Python regex semantics of `$` with match())")
